@@ -41,10 +41,13 @@ CHECKS = {
              "loop is addition mod Base^W, consumed counter values never repeat (wrap through zero included), the error is raised exactly by the request "
              "that would reuse a block and by every later one; the wrapping ChaCha20 variant is shown to violate the same properties. TLC-generated "
              "request/seek sequences are scaled to real MODE_CTR (AES, 3DES; counter_len 1-3; prefix/suffix; both endiannesses), ChaCha20/XChaCha20 "
-             "and CCM objects; TLC judges every call's exception class against the limit and sampled key stream against E(counter block) / the RFC 8439 block function.",
+             "and CCM objects (CTR key stream drawn through encrypt() and through decrypt()); TLC judges every call's exception class against the limit and sampled key stream "
+             "against E(counter block) / the RFC 8439 block function. HPKE: the channel model (nonce distinctness, in-order-once, the message limit) is model-checked and a sample "
+             "of its histories (every one with a refused input first; contexts preset just below the last sequence number) is replayed on real contexts, TLC stepping the model "
+             "along the projected sequence numbers.",
         design_ref="DESIGN.md section 6, C11",
         note="Trusted: TLC; AES.tla and ChaChaPoly.tla transcriptions (pinned by FIPS 197 / RFC 8439 vectors); 3DES key stream is checked against the library's own "
-             "ECB of the specified counter block. Limits of counter_len >= 4, GCM's 2^39-256 bytes are not reached by volume; HPKE nonces are under C15.",
+             "ECB of the specified counter block. Limits of counter_len >= 4, GCM's 2^39-256 bytes are not reached by volume; the RFC 9180 values of HPKE keys and nonces are under C15.",
         technique="TLA+ implementation-shaped counter models checked exhaustively by TLC; spec->code replay across the real limits; code->spec trace validation in TLC",
     ),
     "C15": dict(
